@@ -153,6 +153,7 @@ def gen_spec(rng, profile):
 
 
 def job_of(spec, timeout=55):
+    timeout = spec.get('timeout_s', timeout)
     return {'fn': 'pipe.run', 'timeout': timeout + 10, 'args': dict(spec, phase_timeout=timeout), 'hashseed': spec.get('hashseed')}
 
 
